@@ -20,11 +20,38 @@ from common import EX, SH, graph_from_triples
 from props import c04
 
 
+def two_prefixes_one_namespace(sg):
+    seen = {}
+    for d in sg.objects(None, SH.declare):
+        for ns in sg.objects(d, SH.namespace):
+            for px in sg.objects(d, SH.prefix):
+                seen.setdefault(str(ns), set()).add(str(px))
+    return any(len(v) > 1 for v in seen.values())
+
+
+def label_pool(*graphs):
+    """blank-node labels an adversarial relabelling hands out: the lexical forms of literals and the local names of IRIs that occur
+    in the graphs (where they are legal labels) — a label must stay a label, whatever string it happens to be.
+    Returns (labels from literals, labels from IRIs)."""
+    import re
+    lits, iris = set(), set()
+    for g in graphs:
+        for t in g:
+            for x in t:
+                if isinstance(x, Literal) and re.fullmatch(r"[A-Za-z][A-Za-z0-9]*", str(x)):
+                    lits.add(str(x))
+                elif isinstance(x, URIRef) and re.fullmatch(r"[A-Za-z][A-Za-z0-9]*", str(x).rsplit("/", 1)[-1]):
+                    iris.add(str(x).rsplit("/", 1)[-1])
+    return sorted(lits), sorted(iris - lits)
+
+
 def nt_lines(g: Graph, relabel, rng):
     lines = []
     for s, p, o in g:
         def t(x):
             if isinstance(x, BNode):
+                if str(x) not in relabel and relabel.get("_pool"):
+                    relabel[str(x)] = relabel["_pool"].pop()
                 return "_:" + relabel.setdefault(str(x), "b%s%d" % (relabel["_salt"], len(relabel)))
             if isinstance(x, Literal):
                 from rdflib.plugins.serializers.nt import _quoteLiteral
@@ -92,11 +119,55 @@ def run(ctx, out):
                 s2, ps2 = EX["SP%d" % (k + 2)], BNode()
                 g.add((s2, RDF.type, SH.NodeShape)); g.add((s2, SH.targetSubjectsOf, p0)); g.add((s2, SH.property, ps2))
                 g.add((ps2, SH.path, pk)); g.add((ps2, SH.sparql, c))
+        if rng.random() < 0.35:
+            # prefixes declared on several owl:Ontology nodes of the shapes graph are all in scope of a sh:prefixes value that
+            # declares nothing itself: a second constraint whose query needs one of them, whichever ontology node comes first
+            from rdflib.namespace import OWL
+            c2, XSDURI = BNode(), URIRef("http://www.w3.org/2001/XMLSchema#anyURI")
+            for nm, ns in (("exa", str(EX)), ("exb", str(EX) + "p")):       # two namespaces: exa:p0 = exb:0
+                on, dn = EX["onto_" + nm], BNode()
+                g.add((on, RDF.type, OWL.Ontology)); g.add((on, SH.declare, dn))
+                g.add((dn, SH.prefix, Literal(nm))); g.add((dn, SH.namespace, Literal(ns, datatype=XSDURI)))
+            g.add((s, SH.sparql, c2)); g.add((c2, SH.prefixes, EX.nodecl))
+            l0, l1 = str(p0)[len(str(EX)):], str(p1)[len(str(EX)):]
+            if rng.random() < 0.5:
+                g.add((c2, SH.select, Literal("SELECT $this ?value WHERE { $this exa:%s ?value . FILTER NOT EXISTS { ?value exa:%s $this } }" % (l0, l1))))
+            else:
+                g.add((c2, SH.select, Literal("SELECT $this ?value WHERE { $this exb:%s ?value . FILTER NOT EXISTS { ?value exb:%s $this } }" % (l0[1:], l1[1:]))))
         if rng.random() < 0.4:
             o, d = EX.onto, BNode()
             g.add((c, SH.prefixes, o)); g.add((o, SH.declare, d))
             g.add((d, SH.prefix, Literal(rng.choice(["ex", "zz"])))); g.add((d, SH.namespace, Literal(str(EX), datatype=URIRef("http://www.w3.org/2001/XMLSchema#anyURI"))))
         cases.append(("sparql-path", g, graph_from_triples(data)))
+    # blank-node value nodes next to literals / IRIs under the string-based components (a blank node never matches, whatever its label)
+    for k in range(8 if quick else 60):
+        g = Graph()
+        s_ = EX["PB%d" % k]
+        g.add((s_, RDF.type, SH.NodeShape)); g.add((s_, SH.targetObjectsOf, PREDS[0]))
+        comp = k % 3
+        if comp == 0:
+            g.add((s_, SH.pattern, Literal("^K")))
+        elif comp == 1:
+            g.add((s_, SH.minLength, Literal(2)))
+        else:
+            g.add((s_, SH.pattern, Literal("x")), ); g.add((s_, SH.flags, Literal("i")))
+        data = [(NODES[0], PREDS[0], Literal("Kx1")), (NODES[0], PREDS[0], BNode()), (NODES[1], PREDS[0], EX.Kx2), (NODES[1], PREDS[0], BNode()),
+                (NODES[2], PREDS[0], Literal("Kx3")), (NODES[2], PREDS[0], BNode()), (NODES[2], PREDS[0], Literal("zz"))]
+        cases.append(("string-vs-bnode", g, graph_from_triples(data)))
+    # witnesses of the recorded open finding (rdflib: a SPARQL prologue keeps one prefix per namespace, the last one): two prefixes
+    # declared for ONE namespace, the query uses one of them; which PREFIX line comes last is set iteration order
+    from rdflib.namespace import OWL as _OWL
+    for k in range(4):
+        g = Graph()
+        XSDURI = URIRef("http://www.w3.org/2001/XMLSchema#anyURI")
+        for nm in ("k%da" % k, "k%db" % k):
+            on, dn = EX["onto_" + nm], BNode()
+            g.add((on, RDF.type, _OWL.Ontology)); g.add((on, SH.declare, dn))
+            g.add((dn, SH.prefix, Literal(nm))); g.add((dn, SH.namespace, Literal(str(EX), datatype=XSDURI)))
+        c2 = BNode()
+        g.add((EX.KS, RDF.type, SH.NodeShape)); g.add((EX.KS, SH.targetSubjectsOf, PREDS[0])); g.add((EX.KS, SH.sparql, c2)); g.add((c2, SH.prefixes, EX.nodecl))
+        g.add((c2, SH.select, Literal("SELECT $this ?value WHERE { $this k%da:p0 ?value }" % k)))
+        cases.append(("corpus:two-prefixes-one-namespace", g, graph_from_triples([(NODES[0], PREDS[0], NODES[1])])))
     # ill-formed on purpose: two sh:severity values would make the pick order-dependent -> excluded from the quantifier
     opts_pool = [{}, {"abort_on_first": False, "allow_warnings": True}, {"sparql_mode": True}, {"advanced": True}]
     out.rule = ("Core + composition cases x %d worker processes with distinct PYTHONHASHSEED, each with its own triple insertion order, "
@@ -110,6 +181,11 @@ def run(ctx, out):
         for k in range(nseeds):
             vr = random.Random(ctx.seed * 7 + i * 131 + k)
             rel_s, rel_d = {"_salt": "s%d" % k}, {"_salt": "d%d" % k}
+            if k == 1:      # one worker gets blank nodes named after strings that occur in the graphs as literals / IRIs
+                lits, iris = label_pool(sg, dg)
+                vr.shuffle(lits); vr.shuffle(iris)
+                # `pop()` takes from the end: the data graph's blank nodes get the literal look-alikes first
+                rel_d["_pool"], rel_s["_pool"] = iris[: len(iris) // 2] + lits, iris[len(iris) // 2:]
             jobs[k].append(json.dumps({"id": i, "sg": nt_lines(sg, rel_s, vr), "dg": nt_lines(dg, rel_d, vr),
                                        "prefixes_sg": PREFIX_VARIANTS[(i + k) % len(PREFIX_VARIANTS)],
                                        "prefixes_dg": PREFIX_VARIANTS[(i + 2 * k + 1) % len(PREFIX_VARIANTS)], "kw": kw}))
@@ -143,14 +219,17 @@ def run(ctx, out):
                 diff = None
                 if "graph" in v and "graph" in base:
                     diff = {"only_variant0": [x for x in base["graph"] if x not in v["graph"]][:4], "only_variant%d" % k: [x for x in v["graph"] if x not in base["graph"]][:4]}
-                out.b_fail.append({"signature": "C09:nondeterministic:" + what, "case": case, "variant": k, "diff": diff,
+                sig = "C09:nondeterministic:" + what
+                if two_prefixes_one_namespace(sg) and "ConstraintLoadError" in (str(v.get("raised")), str(base.get("raised"))):
+                    sig = "C09:rdflib-prologue-one-prefix-per-namespace"
+                out.b_fail.append({"signature": sig, "case": case, "variant": k, "diff": diff,
                                    "outcomes": [{kk: (vv if kk != "graph" else len(vv)) for kk, vv in x.items()} for x in (base, v)]})
                 break
         # (A)
         out.traces += 1
         code = vcase.run_code(sg, dg, kws[i])
         model = vcase.parse_model(replies["c%d" % i])
-        if not kws[i].get("sparql_mode") and label != "sparql-path":   # (A) for sh:sparql needs engine tables: that is C05's check
+        if not kws[i].get("sparql_mode") and label != "sparql-path" and not label.startswith("corpus:two-prefixes"):   # (A) for sh:sparql needs engine tables: that is C05's check
             d = vcase.compare(code, model, sg, with_detail=True)
             if d:
                 out.a_mismatch.append({"case": case, "diff": d[:900], "op": "validate"})
